@@ -49,6 +49,31 @@ impl Future for EventFut {
     }
 }
 
+/// yield_now-style future: wakes its own waker during the first poll and returns Pending once
+struct CoopYield(bool);
+impl Future for CoopYield {
+    type Output = ();
+    fn poll(mut self: Pin<&mut Self>, cx: &mut Context) -> Poll<()> {
+        if self.0 { Poll::Ready(()) } else { self.0 = true; desync::verif::log("api", "COOPYIELD", 0, String::new()); cx.waker().wake_by_ref(); Poll::Pending }
+    }
+}
+/// select-style future: ready when either event has fired; while pending its waker is registered with BOTH events, so the
+/// event that fires second calls a stale waker (possibly long after the operation has finished)
+struct EitherFut { ctx: Arc<Ctx>, e: usize, e2: usize }
+impl Future for EitherFut {
+    type Output = ();
+    fn poll(self: Pin<&mut Self>, cx: &mut Context) -> Poll<()> {
+        rt::thread::yield_now();
+        for e in [self.e, self.e2] { if self.ctx.events[e].st.lock().unwrap().0 { desync::verif::log("api", "EITHERREADY", e, String::new()); return Poll::Ready(()); } }
+        for e in [self.e, self.e2] {
+            let mut st = self.ctx.events[e].st.lock().unwrap();
+            if st.0 { drop(st); cx.waker().wake_by_ref(); } else { st.1.push(cx.waker().clone()); }
+        }
+        desync::verif::log("api", "EITHERREG", self.e, format!("{}", self.e2));
+        Poll::Pending
+    }
+}
+
 struct Gate { open: rt::sync::Mutex<bool>, cv: rt::sync::Condvar }
 
 /// Harness-made input stream (built on std primitives only: nothing here may block across a controlled context switch)
@@ -188,7 +213,7 @@ fn run_body(ctx: &Arc<Ctx>, oid: usize, body: &Vec<Prim>, p: &mut Payload, calle
     for prim in body {
         match prim {
             Prim::Touch => ctx.touch(oid, p),
-            Prim::AwaitEv(_) | Prim::AwaitEvSig(_, _) => { /* only meaningful in future bodies */ }
+            Prim::AwaitEv(_) | Prim::AwaitEvSig(_, _) | Prim::CoopYield | Prim::AwaitEither(_, _) => { /* only meaningful in future bodies */ }
             Prim::Gate(g) => { let gt = &ctx.gates[*g]; let mut o = gt.open.lock().unwrap(); while !*o { o = gt.cv.wait(o).unwrap(); } }
             Prim::Panic => { p.mon.panicked.store(true, SeqCst); ctx.panics_started.fetch_add(1, SeqCst); panic!("INTENDED panic in operation {}", oid); }
             Prim::Signal(e) => { exec_op(ctx, &Op::Fire(*e), caller, true, &mut Local::default()); }
@@ -207,6 +232,8 @@ fn run_body_async<'a>(ctx: Arc<Ctx>, oid: usize, body: Vec<Prim>, p: &'a mut Pay
                 Prim::Touch => ctx.touch(oid, p),
                 Prim::AwaitEv(e) => { EventFut { ctx: ctx.clone(), e: *e, sig: None }.await; }
                 Prim::AwaitEvSig(e, e2) => { EventFut { ctx: ctx.clone(), e: *e, sig: Some(*e2) }.await; }
+                Prim::CoopYield => { CoopYield(false).await; }
+                Prim::AwaitEither(e, e2) => { EitherFut { ctx: ctx.clone(), e: *e, e2: *e2 }.await; }
                 Prim::Gate(g) => { let gt = &ctx.gates[*g]; let mut o = gt.open.lock().unwrap(); while !*o { o = gt.cv.wait(o).unwrap(); } }
                 Prim::Panic => { p.mon.panicked.store(true, SeqCst); ctx.panics_started.fetch_add(1, SeqCst); panic!("INTENDED panic in operation {}", oid); }
                 Prim::Signal(e) => { exec_op(&ctx, &Op::Fire(*e), caller, true, &mut Local::default()); }
@@ -223,25 +250,65 @@ struct ThreadWaker { flag: AtomicBool, th: rt::thread::Thread, task: usize }
 impl ArcWake for ThreadWaker { fn wake_by_ref(a: &Arc<Self>) { desync::verif::log("api", "TWAKE", a.task, String::new()); a.flag.store(true, SeqCst); a.th.unpark(); } }
 
 /// Minimal park-based executor; with `max_polls = Some(n)` the future is dropped after n polls that returned Pending
-pub fn block_on<F: Future + Unpin>(mut f: F, max_polls: Option<usize>) -> Option<F::Output> {
+pub fn block_on<F: Future + Unpin>(f: F, max_polls: Option<usize>) -> Option<F::Output> { block_on_late(f, max_polls, 0) }
+/// as `block_on`; when the poll bound is reached the future is kept alive for `late` more yields before it is dropped
+pub fn block_on_late<F: Future + Unpin>(mut f: F, max_polls: Option<usize>, late: usize) -> Option<F::Output> {
     let tw = Arc::new(ThreadWaker { flag: AtomicBool::new(false), th: rt::thread::current(), task: my_task() });
     let w = waker(tw.clone());
     let mut cx = Context::from_waker(&w);
     let mut polls = 0;
     loop {
-        if let Some(m) = max_polls { if polls >= m { desync::verif::log("sf", "DROPFUT", polls, String::new()); return None; } }
+        if let Some(m) = max_polls { if polls >= m { for _ in 0..late { rt::thread::yield_now(); } desync::verif::log("sf", "DROPFUT", polls, String::new()); return None; } }
         desync::verif::log("sf", "POLL", polls, String::new());
         match Pin::new(&mut f).poll(&mut cx) {
             Poll::Ready(v) => return Some(v),
             Poll::Pending => {
                 polls += 1;
-                if let Some(m) = max_polls { if polls >= m { desync::verif::log("sf", "DROPFUT", polls, String::new()); return None; } }
+                if let Some(m) = max_polls { if polls >= m { for _ in 0..late { rt::thread::yield_now(); } desync::verif::log("sf", "DROPFUT", polls, String::new()); return None; } }
                 desync::verif::log("api", "PARK", 0, String::new());
                 while !tw.flag.swap(false, SeqCst) { rt::thread::park(); }
                 desync::verif::log("api", "UNPARKED", 0, String::new());
             }
         }
     }
+}
+
+/// Run-on-wake executor (the shape of `async_task::spawn(fut, |r| r.run())`): whoever calls the waker polls the future inline
+/// on its own thread; a wake-up that arrives while a poll is in progress makes that poll loop once more.  The caller only
+/// waits for the output.  A library that calls a waker while it holds one of its own locks deadlocks under such an executor.
+struct InlineTask<F: Future> { fut: StdMutex<Option<F>>, state: AtomicUsize /* 0 idle, 1 polling, 2 polling + woken, 3 done */, out: StdMutex<Option<F::Output>>, th: rt::thread::Thread, done: AtomicBool }
+impl<F: Future + Unpin + Send + 'static> InlineTask<F> where F::Output: Send {
+    fn run(a: &Arc<Self>) {
+        loop {
+            match a.state.compare_exchange(0, 1, SeqCst, SeqCst) {
+                Ok(_) => break,
+                Err(1) => { if a.state.compare_exchange(1, 2, SeqCst, SeqCst).is_ok() { return; } }
+                Err(_) => return,                // already marked woken, or done
+            }
+        }
+        loop {
+            let w = waker(a.clone());
+            let mut cx = Context::from_waker(&w);
+            let mut f = a.fut.lock().unwrap().take();
+            let r = match f.as_mut() { Some(f) => Pin::new(f).poll(&mut cx), None => return };
+            match r {
+                Poll::Ready(v) => { drop(f); *a.out.lock().unwrap() = Some(v); a.state.store(3, SeqCst); a.done.store(true, SeqCst); a.th.unpark(); return; }
+                Poll::Pending => {
+                    *a.fut.lock().unwrap() = f;
+                    if a.state.compare_exchange(1, 0, SeqCst, SeqCst).is_ok() { return; }
+                    a.state.store(1, SeqCst);    // woken during the poll: poll again
+                }
+            }
+        }
+    }
+}
+impl<F: Future + Unpin + Send + 'static> ArcWake for InlineTask<F> where F::Output: Send { fn wake_by_ref(a: &Arc<Self>) { desync::verif::log("api", "INLINEWAKE", 0, String::new()); InlineTask::run(a); } }
+pub fn block_on_inline<F: Future + Unpin + Send + 'static>(f: F) -> F::Output where F::Output: Send {
+    let t = Arc::new(InlineTask { fut: StdMutex::new(Some(f)), state: AtomicUsize::new(0), out: StdMutex::new(None), th: rt::thread::current(), done: AtomicBool::new(false) });
+    InlineTask::run(&t);
+    while !t.done.load(SeqCst) { rt::thread::park(); }
+    let v = t.out.lock().unwrap().take().unwrap();
+    v
 }
 
 #[derive(Default)]
@@ -265,10 +332,24 @@ pub fn exec_op(ctx: &Arc<Ctx>, op: &Op, caller: usize, nested: bool, local: &mut
         }
         Op::Open(g) => { let gt = &ctx.gates[*g]; *gt.open.lock().unwrap() = true; gt.cv.notify_all(); return; }
         Op::DropObj(q) => { desync::verif::log("api", "DROPOBJ", *q, String::new()); let o = ctx.objs[*q].lock().unwrap().take(); drop(o); return; }
-        Op::Resume => { if let Some(r) = local.resumer.take() { let t = ctx.tick(); if let Some(o) = local.susp_op.take() { ctx.with_op(o, |x| x.end = t); } r.resume(); } return; }
-        Op::DropResumer => { if let Some(r) = local.resumer.take() { let t = ctx.tick(); if let Some(o) = local.susp_op.take() { ctx.with_op(o, |x| x.end = t); } drop(r); } return; }
+        Op::Resume => { if let Some(r) = local.resumer.take() { let t = ctx.tick(); if let Some(o) = local.susp_op.take() { ctx.with_op(o, |x| x.end = t); } desync::verif::log("api", "RESUME", 0, String::new()); r.resume(); } return; }
+        Op::DropResumer => { if let Some(r) = local.resumer.take() { let t = ctx.tick(); if let Some(o) = local.susp_op.take() { ctx.with_op(o, |x| x.end = t); } desync::verif::log("api", "RESUME", 1, String::new()); drop(r); } return; }
         Op::WaitEv(e) => { block_on(EventFut { ctx: ctx.clone(), e: *e, sig: None }, None); return; }
         Op::Yield(n) => { for _ in 0..*n { rt::thread::yield_now(); } return; }
+        Op::PlainDrop(n) => {
+            // a value without drop glue: nothing observes its destruction, but the last owner's drop must still wait for everything queued
+            let d = Desync::new(0u64);
+            let ran = Arc::new(AtomicUsize::new(0));
+            for j in 0..*n {
+                let r = ran.clone();
+                if j % 2 == 0 { d.desync(move |_| { rt::thread::yield_now(); rt::thread::yield_now(); r.fetch_add(1, SeqCst); }); }
+                else { drop(d.future_desync(move |_| async move { CoopYield(false).await; r.fetch_add(1, SeqCst); }.boxed())); }
+            }
+            drop(d);
+            let k = ran.load(SeqCst);
+            if k != *n { ctx.error("C05", format!("a Desync<u64> was dropped with {} operations queued: the drop returned when only {} of them had run (its storage is freed under them)", n, k)); }
+            return;
+        }
         Op::Noise(c) => { let t = { let g = ctx.threads.lock().unwrap(); g.get(*c).cloned().flatten() }; if let Some(t) = t { t.unpark(); } return; }
         Op::AwaitUnwind => {
             // every started panic has been caught either by a caller's top level or at the top of a pool thread
@@ -399,7 +480,7 @@ pub fn exec_op(ctx: &Arc<Ctx>, op: &Op, caller: usize, nested: bool, local: &mut
             let ret = ctx.tick();
             ctx.with_op(oid, |r| r.ret = ret);
             match mode {
-                Mode::PollDrop(n) => { let r = block_on(fut, Some(*n)); desync::verif::log("sf", "YDONE", oid, match &r { Some(Ok(v)) => format!("ok {}", v), Some(Err(_)) => "err".to_string(), None => "dropped".to_string() }); if let Some(r) = r { check_ok_token(ctx, oid, "C08", r.ok()); } else { ctx.with_op(oid, |r| if r.end == 0 { r.cancelled = true }); } }
+                Mode::PollDrop(_) | Mode::PollDropLate(_, _) => { let (n, late) = match mode { Mode::PollDrop(n) => (n, 0), Mode::PollDropLate(n, l) => (n, *l), _ => unreachable!() }; let r = block_on_late(fut, Some(*n), late); desync::verif::log("sf", "YDONE", oid, match &r { Some(Ok(v)) => format!("ok {}", v), Some(Err(_)) => "err".to_string(), None => "dropped".to_string() }); if let Some(r) = r { check_ok_token(ctx, oid, "C08", r.ok()); } else { ctx.with_op(oid, |r| if r.end == 0 { r.cancelled = true }); } }
                 _ => { let r = block_on(fut, None).unwrap(); desync::verif::log("sf", "YDONE", oid, match &r { Ok(v) => format!("ok {}", v), Err(_) => "err".to_string() }); check_ok_token(ctx, oid, "C08", r.ok()); }
             }
             drop(obj);
@@ -491,7 +572,7 @@ fn desync_suspend(_obj: &Arc<Desync<Payload>>) -> BoxFuture<'static, Result<desy
 }
 
 fn finish_future<F>(ctx: &Arc<Ctx>, oid: usize, fut: F, mode: &Mode, prop: &str)
-where F: Future<Output = Result<usize, futures::channel::oneshot::Canceled>> + Unpin + MaybeSync {
+where F: Future<Output = Result<usize, futures::channel::oneshot::Canceled>> + Unpin + MaybeSync + Send + 'static {
     let ret = ctx.tick();
     ctx.with_op(oid, |r| r.ret = ret);
     match mode {
@@ -510,6 +591,15 @@ where F: Future<Output = Result<usize, futures::channel::oneshot::Canceled>> + U
         }
         Mode::PollDrop(n) => {
             if let Some(r) = block_on(fut, Some(*n)) { check_ok_token(ctx, oid, prop, r.ok()); }
+        }
+        Mode::PollDropLate(n, late) => {
+            if let Some(r) = block_on_late(fut, Some(*n), *late) { check_ok_token(ctx, oid, prop, r.ok()); }
+        }
+        Mode::Inline => {
+            let r = block_on_inline(fut);
+            let fin = ctx.with_op(oid, |r| r.end != 0);
+            if !fin { ctx.error(prop, format!("future of operation {} resolved before the operation finished", oid)); }
+            check_ok_token(ctx, oid, prop, r.ok());
         }
     }
 }
